@@ -379,27 +379,34 @@ fn show_sched(s: &[usize]) -> String {
 // ------------------------------------------------------------------ the real run
 
 fn exec(store: &TensorStore, op: &Op) -> Res {
-    let err = |e: String| if e.to_lowercase().contains("not found") { Res::Nf } else { Res::Other(e) };
+    // Error canonicalisation (BUILDING.md), rule 1: by VARIANT. `TensorStoreError` has the single variant
+    // `NotFound` (put_durable / delete_durable map every router error to it as well); `Res::Other` is for
+    // a variant added later and carries its NAME, never message text.
+    let err = |e: tensor_store::TensorStoreError| match e {
+        tensor_store::TensorStoreError::NotFound(_) => Res::Nf,
+        #[allow(unreachable_patterns)]
+        other => Res::Other(format!("err:{}", format!("{other:?}").chars().take_while(|c| c.is_alphanumeric()).collect::<String>())),
+    };
     match op {
         Op::Put(k, v) => match store.put(k.real(), v.data()) {
             Ok(()) => Res::Ok,
-            Err(e) => err(e.to_string()),
+            Err(e) => err(e),
         },
         Op::PutD(k, v) => match store.put_durable(k.real(), v.data()) {
             Ok(()) => Res::Ok,
-            Err(e) => err(e.to_string()),
+            Err(e) => err(e),
         },
         Op::Get(k) => match store.get(&k.real()) {
             Ok(d) => Res::Found(Val::of_data(&d)),
-            Err(e) => err(e.to_string()),
+            Err(e) => err(e),
         },
         Op::Del(k) => match store.delete(&k.real()) {
             Ok(()) => Res::Ok,
-            Err(e) => err(e.to_string()),
+            Err(e) => err(e),
         },
         Op::DelD(k) => match store.delete_durable(&k.real()) {
             Ok(()) => Res::Ok,
-            Err(e) => err(e.to_string()),
+            Err(e) => err(e),
         },
         Op::Ex(k) => Res::Bool(store.exists(&k.real())),
         Op::Scan(p) => {
